@@ -24,6 +24,7 @@ RULE = (
     "shortest history replayed, and compared with io.BytesIO(plaintext): data returned, position before/after, "
     "position advanced by exactly len(data). Plus all histories up to the unmerged depth, plus from_file detection "
     "over every stub of the bound. non-trivial = the operation moved the cursor or returned data"
+    '. Added: inconsistent size fields, results held across later reads, caller-supplied maxrange, MZ-leading stubs, detection independent of the handle position. '
 )
 ASSUMPTIONS = [
     "io.BytesIO is the reference for read-only file semantics",
